@@ -564,10 +564,10 @@ Qed.
 
 (* ------------------------------------------------------------------ single machine steps *)
 Lemma run_cons : forall orj ce ins rest i s s',
-  is_final ins = false -> step orj ce ins i s = Some s' -> run orj ce (ins :: rest) i s = run orj ce rest (S i) s'.
+  is_final ins = false -> step orj ce [] ins i s = Some s' -> run orj ce [] (ins :: rest) i s = run orj ce [] rest (S i) s'.
 Proof. intros orj ce ins rest i s s' Hf Hs. cbn [run]. rewrite Hf, Hs. reflexivity. Qed.
 
-Lemma step_load : forall orj ce n i s, has_target s (pos_of i) = false -> step orj ce (ILoad n) i s = Some (push (DAtom 0 0 n) s).
+Lemma step_load : forall orj ce n i s, has_target s (pos_of i) = false -> step orj ce [] (ILoad n) i s = Some (push (DAtom 0 0 n) s).
 Proof. intros orj ce n i s H. unfold step. rewrite H. reflexivity. Qed.
 
 Lemma has_target_push : forall d s p, has_target (push d s) p = has_target s p.
@@ -577,11 +577,11 @@ Proof. reflexivity. Qed.
    position: pushes the one-operand clause and registers it for its target *)
 Lemma cond_jump_and : forall orj ce p nextp endpos neg n s,
   Nat.leb ce p = false -> existsb (Nat.eqb p) orj = false -> has_target s nextp = false ->
-  cond_jump orj ce p nextp endpos neg None (push (DAtom 0 0 n) s) =
+  cond_jump orj ce [] p nextp endpos neg None (push (DAtom 0 0 n) s) =
   Some (mkState (DBool (nextid s) endpos false [dlit (Lit neg n)] :: stack s) (tsetdefault (targets s) endpos (nextid s)) (S (nextid s))).
 Proof.
   intros orj ce p nextp endpos neg n s Hce Horj Hnt. unfold cond_jump.
-  cbn [pop push stack targets nextid]. rewrite Hce, Horj.
+  cbn [pop push stack targets nextid]. rewrite Hce, Horj. cbn [existsb orb].
   cbn [negb].
   match goal with |- context [has_target ?a nextp] => change (has_target a nextp) with (has_target s nextp) end.
   rewrite Hnt. cbn [pop push stack targets nextid]. destruct neg; reflexivity.
@@ -667,8 +667,8 @@ Lemma run_chain : forall orj ce back t ls rest i s,
   (forall k, k <= 2 * length ls -> has_target s (pos_of (i + k)) = false) ->
   (forall k, k <= 2 * length ls -> eff_target back t <> pos_of (i + k)) ->
   (forall k, k < length ls -> Nat.leb ce (pos_of (i + 2 * k + 1)) = false /\ existsb (Nat.eqb (pos_of (i + 2 * k + 1))) orj = false) ->
-  run orj ce (chain_code (mk_jump back t) ls ++ rest) i s =
-  run orj ce rest (i + 2 * length ls)
+  run orj ce [] (chain_code (mk_jump back t) ls ++ rest) i s =
+  run orj ce [] rest (i + 2 * length ls)
       (mkState (rev (cl false (eff_target back t) (chain_items (nextid s) ls)) ++ stack s)
                (match ls with [] => targets s | _ => tsetdefault (targets s) (eff_target back t) (nextid s) end)
                (nextid s + length ls)).
@@ -680,7 +680,7 @@ Proof.
     assert (H1 : has_target s (pos_of (S i)) = false) by (replace (S i) with (i + 1) by lia; apply Hnt; cbn [length]; lia).
     assert (H2 : has_target s (pos_of (S (S i))) = false) by (replace (S (S i)) with (i + 2) by lia; apply Hnt; cbn [length]; lia).
     rewrite (run_cons orj ce (ILoad n) _ i s (push (DAtom 0 0 n) s) eq_refl (step_load orj ce n i s H0)).
-    assert (Hstep : step orj ce (mk_jump back t neg) (S i) (push (DAtom 0 0 n) s) =
+    assert (Hstep : step orj ce [] (mk_jump back t neg) (S i) (push (DAtom 0 0 n) s) =
                     Some (mkState (DBool (nextid s) (eff_target back t) false [dlit (Lit neg n)] :: stack s)
                                   (tsetdefault (targets s) (eff_target back t) (nextid s)) (S (nextid s)))).
     { unfold step. rewrite has_target_push, H1.
@@ -713,11 +713,11 @@ Lemma cond_jump_general : forall orj ce p nextp endpos (c : bool) n s isor d e2 
   (if existsb (Nat.eqb p) orj then (true, if c then DAtom 0 0 n else DNot 0 0 (DAtom 0 0 n))
    else (false, if c then DNot 0 0 (DAtom 0 0 n) else DAtom 0 0 n)) = (isor, d) ->
   (if has_target s nextp then process_target false nextp (push d s) else Some (push d s)) = Some (mkState (e2 :: stk') ts' (nextid s)) ->
-  cond_jump orj ce p nextp endpos c None (push (DAtom 0 0 n) s) =
+  cond_jump orj ce [] p nextp endpos c None (push (DAtom 0 0 n) s) =
   Some (mkState (DBool (nextid s) endpos isor [e2] :: stk') (tsetdefault ts' endpos (nextid s)) (S (nextid s))).
 Proof.
   intros orj ce p nextp endpos c n s isor d e2 stk' ts' Hce Hcls Hpt. unfold cond_jump.
-  cbn [pop push stack targets nextid]. rewrite Hce.
+  cbn [pop push stack targets nextid]. rewrite Hce. cbn [existsb orb].
   assert (Hs : {| stack := stack s; targets := targets s; nextid := nextid s |} = s) by (destruct s; reflexivity).
   rewrite Hs. rewrite Hcls. cbn [negb].
   change (has_target (push d s) nextp) with (has_target s nextp). rewrite Hpt.
@@ -768,8 +768,8 @@ Lemma run_alt : forall orj ce ls body rest i s,
   (forall k, k < length ls -> Nat.leb ce (pos_of (i + 2 * k + 1)) = false) ->
   (forall k, k + 1 < length ls -> existsb (Nat.eqb (pos_of (i + 2 * k + 1))) orj = false) ->
   existsb (Nat.eqb (pos_of (i + 2 * length ls - 1))) orj = true ->
-  run orj ce (alt_fwd ls (pos_of (i + 2 * length ls)) body ++ rest) i s =
-  run orj ce rest (i + 2 * length ls)
+  run orj ce [] (alt_fwd ls (pos_of (i + 2 * length ls)) body ++ rest) i s =
+  run orj ce [] rest (i + 2 * length ls)
       (mkState (DBool (nextid s + length ls - 1) body true [alt_node (nextid s) (pos_of (i + 2 * length ls)) ls] :: stack s)
                (tsetdefault (targets s) body (nextid s + length ls - 1))
                (nextid s + length ls)).
@@ -796,7 +796,7 @@ Proof.
   cbn [app].
   rewrite (run_cons orj ce (ILoad n) _ i1 s1 (push (DAtom 0 0 n) s1) eq_refl
              (step_load orj ce n i1 s1 ltac:(rewrite <- (Nat.add_0_r i1); apply Hnt1; lia))).
-  assert (Hstep : step orj ce (IJump (negb neg) body) (S i1) (push (DAtom 0 0 n) s1) =
+  assert (Hstep : step orj ce [] (IJump (negb neg) body) (S i1) (push (DAtom 0 0 n) s1) =
                   Some (mkState (DBool (nextid s + (length ls0 + 1) - 1) body true [alt_node (nextid s) nextalt (ls0 ++ [Lit neg n])] :: stack s)
                                 (tsetdefault (targets s) body (nextid s + (length ls0 + 1) - 1))
                                 (nextid s + (length ls0 + 1)))).
@@ -851,10 +851,10 @@ Lemma run_elt_yield : forall orj ce i s final ts n,
   has_target s (pos_of i) = false -> has_target s (pos_of (S i)) = false ->
   2 <= length (stack s) ->
   process_target false 0 s = Some (mkState [final; DComp 0 0] ts n) -> is_comp final = false ->
-  run orj ce [ILoadElt; IYield] i s = RGen (DElt 0 0) [[final]].
+  run orj ce [] [ILoadElt; IYield] i s = RGen (DElt 0 0) [[final]].
 Proof.
   intros orj ce i s final ts n H0 H1 Hlen Hpt Hc.
-  assert (Hstep : step orj ce ILoadElt i s = Some (push (DElt 0 0) s)) by (unfold step; rewrite H0; reflexivity).
+  assert (Hstep : step orj ce [] ILoadElt i s = Some (push (DElt 0 0) s)) by (unfold step; rewrite H0; reflexivity).
   rewrite (run_cons orj ce ILoadElt _ i s _ eq_refl Hstep).
   cbn [run is_final]. unfold finish. rewrite has_target_push, H1.
   cbn [pop push stack targets nextid].
@@ -891,7 +891,7 @@ Qed.
 Lemma run_single : forall orj ce ls i s,
   ls <> [] -> 1 <= nextid s -> stack s = [DComp 0 0] -> targets s = [] ->
   (forall k, k < length ls -> Nat.leb ce (pos_of (i + 2 * k + 1)) = false /\ existsb (Nat.eqb (pos_of (i + 2 * k + 1))) orj = false) ->
-  exists final, run orj ce (and_back ls ++ [ILoadElt; IYield]) i s = RGen (DElt 0 0) [[final]] /\ strip final = alt_pt ls.
+  exists final, run orj ce [] (and_back ls ++ [ILoadElt; IYield]) i s = RGen (DElt 0 0) [[final]] /\ strip final = alt_pt ls.
 Proof.
   intros orj ce ls i s Hne Hid Hst Hts Hcl.
   rewrite (and_back_chain ls 0). rewrite run_chain; [| | |assumption].
@@ -956,7 +956,7 @@ Lemma run_last : forall orj ce ls i s ors k1 d1 orest,
   targets s = [(pos_of (i + 2 * length ls), k1)] ->
   ce = pos_of (i + 2 * length ls) ->
   (forall k, k < length ls -> existsb (Nat.eqb (pos_of (i + 2 * k + 1))) orj = false) ->
-  exists final, run orj ce (and_back ls ++ [ILoadElt; IYield]) i s = RGen (DElt 0 0) [[final]] /\
+  exists final, run orj ce [] (and_back ls ++ [ILoadElt; IYield]) i s = RGen (DElt 0 0) [[final]] /\
                 strip final = PBool true (map strip (map snd ors) ++ [alt_pt ls]).
 Proof.
   intros orj ce ls i s ors k1 d1 orest Hne Hors Hk1 Hk1n Hrest Hst Hts Hce Horj.
@@ -1016,7 +1016,7 @@ Proof.
     - rewrite merge_first; [|apply plain_dlit|apply same_id_dlit| |discriminate].
       + rewrite hd_chain_items by discriminate. rewrite map_snd_chain_items. fold lastnode. unfold orall. apply Hm2; assumption.
       + intros k d Hin. rewrite chain_items_cons in Hin. cbn [tl] in Hin. apply chain_items_ids in Hin. cbn [not_lim]. lia. }
-  assert (Hstep : step orj ce (IBack neg) (S i1) (push (DAtom 0 0 n) s1) =
+  assert (Hstep : step orj ce [] (IBack neg) (S i1) (push (DAtom 0 0 n) s1) =
                   Some (mkState [DBool (nextid s1) TOP false [orall]; DComp 0 0] (tsetdefault (tdel (targets s1) body) TOP (nextid s1)) (S (nextid s1)))).
   { unfold step. rewrite has_target_push. rewrite Hnt1 by (unfold body, i1, pos_of; lia).
     replace (pos_of (S (S i1))) with body by (unfold body, i1, pos_of; lia).
@@ -1083,7 +1083,7 @@ Lemma run_dnf_from : forall alts orj ce i s ors,
   stack s = rev (cl true ce ors) ++ [DComp 0 0] ->
   targets s = match ors with [] => [] | x :: _ => [(ce, fst x)] end ->
   1 <= nextid s -> ors_ok ors (nextid s) ->
-  exists final, run orj ce (dnf_code alts (pos_of i) ce ++ [ILoadElt; IYield]) i s = RGen (DElt 0 0) [[final]] /\
+  exists final, run orj ce [] (dnf_code alts (pos_of i) ce ++ [ILoadElt; IYield]) i s = RGen (DElt 0 0) [[final]] /\
                 strip final = expected ors alts.
 Proof.
   induction alts as [|ls r IH]; intros orj ce i s ors [Hne Hall] Hce Horj Hst Hts Hid [Hsorted Hrange]; [congruence|].
@@ -1208,11 +1208,47 @@ Proof.
     rewrite to_bexp_list_alts by assumption. reflexivity.
 Qed.
 
+(* no COPY, no value-context jump *)
+Fixpoint vj_from (l : list instr) (i : nat) : list nat :=
+  match l with [] => [] | x :: r => match x with ICopy => pos_of (S i) :: vj_from r (S i) | _ => vj_from r (S i) end end.
+
+Lemma value_jumps_from : forall code, value_jumps code = vj_from code 0.
+Proof.
+  intro code. unfold value_jumps. generalize 0 as i. induction code as [|x r IH]; intro i; [reflexivity|].
+  destruct x; cbn [vj_from]; rewrite <- (IH (S i)); reflexivity.
+Qed.
+
+Lemma vj_from_no_copy : forall l i, ~ In ICopy l -> vj_from l i = [].
+Proof.
+  induction l as [|x r IH]; intros i H; [reflexivity|].
+  cbn [vj_from]. destruct x; try (apply IH; intro H1; apply H; right; exact H1). exfalso. apply H. left. reflexivity.
+Qed.
+
+Lemma no_copy_and_back : forall ls, ~ In ICopy (and_back ls).
+Proof. induction ls as [|[neg n] r IH]; intro H; [exact H|]. cbn [and_back] in H. destruct H as [H|[H|H]]; try discriminate. exact (IH H). Qed.
+Lemma no_copy_alt_fwd : forall ls a b, ~ In ICopy (alt_fwd ls a b).
+Proof.
+  induction ls as [|[neg n] r IH]; intros a b H; [exact H|].
+  cbn [alt_fwd] in H. destruct r as [|y s].
+  - destruct H as [H|[H|H]]; try discriminate. exact H.
+  - destruct H as [H|[H|H]]; try discriminate. exact (IH _ _ H).
+Qed.
+Lemma no_copy_dnf_code : forall alts p body, ~ In ICopy (dnf_code alts p body).
+Proof.
+  induction alts as [|ls r IH]; intros p body H; [exact H|].
+  cbn [dnf_code] in H. destruct r as [|ls2 r2]; [exact (no_copy_and_back _ H)|].
+  apply in_app_or in H. destruct H as [H|H]; [exact (no_copy_alt_fwd _ _ _ H) | exact (IH _ _ H)].
+Qed.
+
 (* ------------------------------------------------------------------ the round trip *)
 Theorem roundtrip_dnf : forall alts, wf_alts alts -> decompile PFilter (dnf alts) = Some (dnf alts).
 Proof.
   intros alts Hwf. unfold decompile. rewrite compile_dnf by assumption.
   unfold decompile_code. rewrite or_jumps_dnf by assumption.
+  assert (Hvj : value_jumps (dnf_code alts 2 (2 + 2 * total_lits alts) ++ [ILoadElt; IYield]) = []).
+  { rewrite value_jumps_from. apply vj_from_no_copy. intro H. apply in_app_or in H.
+    destruct H as [H|[H|[H|[]]]]; try discriminate H. exact (no_copy_dnf_code _ _ _ H). }
+  rewrite Hvj.
   assert (Hce : conditions_end (dnf_code alts 2 (2 + 2 * total_lits alts) ++ [ILoadElt; IYield]) = pos_of (0 + 2 * total_lits alts)).
   { rewrite conditions_end_from, ce_from_app, ce_from_dnf_code by assumption. reflexivity. }
   rewrite Hce.
